@@ -21,7 +21,7 @@ import sys
 import time
 
 ROOT = os.path.normpath(os.path.join(os.path.dirname(os.path.abspath(__file__)), ".."))
-KANI_DIR = os.path.join(ROOT, "kani")
+KANI_DIR = os.environ.get("VERIF_KANI_DIR") or os.path.join(ROOT, "kani")  # override only for scratch experiments
 REPO = "/repo"
 GUARD = "--cfg rust_vmm_acpi_tables_verif"
 MEM_KB = 20_000_000  # ulimit -v per process
